@@ -268,7 +268,7 @@ def ob_native():
         d["scheme"] = ["a", "b"]
         p = SimulationParameters.create(d)
         for n in ("SNR", "scheme"):
-            if rr.rand() < 0.6:
+            if (not (rr.rand() >= 0.6)):
                 p.set_unpack_parameter(n)
         objs = [("parameters", p, SimulationParameters)]
         kids = p.get_unpacked_params_list()
